@@ -7,3 +7,7 @@ pub fn verif_sanitize_path(p: OsString) -> OsString {
 pub fn verif_is_mapping_a_path(p: Option<&OsStr>) -> bool {
     is_mapping_a_path(p)
 }
+#[cfg(kani)]
+pub fn verif_so_version_parse(p: &OsStr) -> Option<(u32, u32, u32, u32)> {
+    SoVersion::parse(p).map(|v| (v.major, v.minor, v.patch, v.prerelease))
+}
